@@ -41,7 +41,7 @@ fn mkp(name: String, cfg: Cfg, alpha: Alpha, spec: FilterSpec, pfx: &str, depth:
     prop.probe = Probe::Lite;
     prop.filter = Some(spec.assigner());
     prop.filter_oracle = Some(spec);
-    Pass { name, prop, depth, min_depth, budget: Duration::from_secs_f64(secs) }
+    Pass { name, prop, depth, min_depth, budget: Duration::from_secs_f64(secs), dedup_extra: 0, dedup_budget: Duration::ZERO }
 }
 
 pub fn passes(tier: &str) -> Vec<Pass> {
